@@ -511,4 +511,26 @@ MUTANTS += [
                 )
 """, new="""                val = ",".join([str(int(v)) for v in val])
 """),
+    dict(id="c04-compression-failure-swallowed", prop="C04", file="neuropixel.py",
+         old="""            sr_ap = spikeglx.Reader(bin_file)
+            cbin_file = sr_ap.compress_file(**kwargs)
+            sr_ap.close()
+""", new="""            sr_ap = spikeglx.Reader(bin_file)
+            try:
+                cbin_file = sr_ap.compress_file(**kwargs)
+            except OSError:
+                cbin_file = bin_file.with_suffix(".cbin")
+            sr_ap.close()
+"""),
+    dict(id="c04-np21-original-removed-by-compression", prop="C04", file="neuropixel.py",
+         old="""                cbin_file = self.sr.compress_file()
+                self.sr.close()
+                self.ap_file.unlink()
+""", new="""                self.sr.close()
+                cbin_file = self.ap_file.with_suffix(".cbin")
+                try:
+                    cbin_file = self.sr.compress_file(keep_original=False)
+                finally:
+                    self.ap_file.unlink(missing_ok=True)
+"""),
 ]
